@@ -433,3 +433,23 @@ def ed4(P, C, floor=4):
             C.ob("ED-4", ts.fshort(f) if f.cls else f.name, "%s#%d" % (cal["name"], len([k for k in seen if k[2] == f.name and k[3] == f.unit])), ok, f.loc(i),
                  "status of %s (returns %s) is %s" % (cal["name"], sf[cal["name"]], how))
     return n
+
+
+def ed5(P, C, floor=1):
+    C.rule("ED-5", "no catch handler on the write path absorbs a failure: every handler in write_fits, write_fits_mem and write_fits_core ends by "
+           "re-raising (or raising) on every path, so a failure inside the writer core cannot turn into a normal return", floor=floor)
+    mt = P.maythrow()
+    n = 0
+    for name in ("write_fits", "write_fits_mem", "write_fits_core"):
+        fs_ = [g for g in P.fns(name) if g.unit == "driver" and "splinetable<" in g.qname]
+        if not fs_:
+            raise core.AnalysisBroken("ED-5: %s not found" % name)
+        f = fs_[0]
+        handlers = [i for i in f.walk() if f.k(i) == "CXXCatchStmt"]
+        bad = [h for h in handlers if P.handler_swallows(f, h, mt)]
+        n += len(handlers)
+        C.ob("ED-5", name, "handlers-reraise", not bad, f.loc(bad[0]) if bad else f.where(),
+             ("%d catch handler(s), each re-raises" % len(handlers)) if not bad else
+             "the handler at %s can complete normally: a failure of the writer is absorbed and the function goes on to report success" % f.loc(bad[0]))
+    if n < floor:
+        raise core.AnalysisBroken("ED-5: no catch handler at all on the write path (expected the buffer-releasing handler of write_fits_mem)")
